@@ -25,7 +25,8 @@ fA == <<102,65>> fB == <<102,66>> fC == <<102,67>> fU == <<102,85>> fJ == <<102,
 x1 == <<120,49>> x2 == <<120,50>> y1 == <<121,49>> y2 == <<121,50>> kwf == <<107,119,102>> nosuch == <<110,111,115,117,99,104>>
 t_x == <<120>> t_yy == <<121,121>> t_v == <<118>> t_w == <<119>> t_m1 == <<109,49>> t_m2 == <<109,50>> t_ZZZ == <<90,90,90>> t_q == <<113>>
 Fmap1 == T("fmap", <<(<<fA, <<x1>>>>)>>, <<>>, <<>>, FALSE, All)
-Fmap1n == T("fmap", <<(<<fA, <<x1, x2>>>>), (<<fB, <<y1, y2>>>>), (<<fU, <<y1, y2>>>>)>>, <<>>, <<>>, FALSE, All)
+fR == <<102,82>> fZ == <<102,90>> g6 == <<103,54>>      \* (fR, fZ, g6: fields of negated items)
+Fmap1n == T("fmap", <<(<<fA, <<x1, x2>>>>), (<<fB, <<y1, y2>>>>), (<<fU, <<y1, y2>>>>), (<<fR, <<y1, y2>>>>), (<<fZ, <<x1, x2>>>>), (<<g6, <<y1, y2>>>>)>>, <<>>, <<>>, FALSE, All)
 FmapKw == T("fmap", <<(<<(<<>>), <<kwf>>>>)>>, <<>>, <<>>, FALSE, All)
 FmapRef == T("fmap", <<(<<g, <<x1>>>>), (<<other, <<x1, x2>>>>), (<<fJ, <<y1>>>>)>>, <<>>, <<>>, FALSE, All)
 FmapId == T("fmap", <<(<<nosuch, <<x1>>>>)>>, <<>>, <<>>, FALSE, All)
